@@ -153,8 +153,8 @@ the arm binds, the `..` marker, and the code of the sub-patterns. -/
 def Code.armParts (value : Toks) : Code → Option (Sp × VExpr × Toks × Push)
   | .enumTuple sp v path binders body push =>
     some (sp, v, path.toks ++ (binders.map Binder.toks).flatten ++ body.toks value, push)
-  | .structNamed sp v path fields rest body push =>
-    some (sp, v, path.toks ++ (fields.map fun f => f.toks ++ tq sp ":" ++ (Name.field f).toks).flatten ++
+  | .structNamed sp v path fields fsps rest body push =>
+    some (sp, v, path.toks ++ ((fields.zip fsps).map fun fs => fs.1.toksAt fs.2 ++ tq sp ":" ++ (Name.field fs.1).toks).flatten ++
       (if !rest then [] else if fields.isEmpty then tq cs ". ." else tq cs ", . .") ++ body.toks value, push)
   | _ => none
 
